@@ -8,4 +8,6 @@ mkdir -p build/tmp evidence replays
 (cd spec && for f in *.tla; do
   tla-sany "$f" > ../build/tmp/sany.log 2>&1 || { cat ../build/tmp/sany.log; echo "SANY failed on $f"; exit 1; }
 done)
+# the sqlgrep CLI (for child-process runs), in its own target dir
+(cd /repo && cargo build --offline --quiet --bin sqlgrep --target-dir /verif/build/cli 2>/dev/null || true)
 echo "setup ok"
